@@ -84,6 +84,38 @@ let run_case op t =
             else show buf (z_of_int 1) (Some Z0)
         | _, _ -> "na" in
       (mleg, sleg)
+  | "align" ->
+      (* align <family> <element code> <sizeof T> <alignof T> <capacity> <placement>: alignment / layout of the in-object
+         storages (coq/C02/ModelAlign.v): alignof(V) mod alignof(T), misaligned slots, slots outside the object, values
+         intact; after `#` (correspondence only) alignof(V), sizeof(V), offset of slot 0, stride, offset of V in the arena *)
+      let fam = next_str t in
+      let code = next_str t in
+      let s = next_z t in
+      let a = next_int t in
+      let n = next_z t in
+      let p = next_int t in
+      let rec log2 x = if x <= 1 then 0 else 1 + log2 (x / 2) in
+      let trivial = String.length code > 0 && code.[0] = 't' in
+      let f = (match fam with
+               | "sv" -> FStaticVector trivial | "iv" -> FInplaceVector trivial | "ua" -> FUninitializedArray trivial
+               | "as" -> FAlignedStorage | "au" -> FAlignedUnion | "opt" -> FOptional | "var" -> FVariant
+               | "exp" -> FExpected | "exu" -> FExpectedError | "fun" -> FInplaceFunction true | "fund" -> FInplaceFunction false
+               | _ -> raise Not_found) in
+      let pl = (match p with
+                | 0 -> PNatural | 1 -> PBehindChar | 20 -> PArrayElem (z_of_int 1) | 21 -> PArrayElem (z_of_int 2) | 3 -> PAtAlign
+                | 4 -> PSecondBehindChar | 5 -> PPairSecond | 6 -> PEtlArrayElem | 7 -> PInInplaceVector | 8 -> PInOptional
+                | 9 -> PInStaticVector | _ -> raise Not_found) in
+      let e = { e_size = s; e_al = nat_of_int (log2 a) } in
+      let (obs, detail) = align_obs f e n pl in
+      ("ok " ^ zs obs ^ " 1 # " ^ zs detail, "ok " ^ zs align_spec ^ " 1")
+  | "asdef" ->
+      (* asdef <len>: aligned_storage_t<len> with the default alignment *)
+      let len = next_z t in
+      let (worse, al) = asdef_obs len in
+      ("ok " ^ str_of_z worse ^ " 1 # " ^ str_of_z al, "ok 0 1")
+  | "san_canary" ->
+      (* the sanitizer builds must abort on the deliberate misaligned access / heap overflow; the other builds skip *)
+      ("crash 6", "na")
   | _ -> raise Not_found
 
 let () = main run_case
